@@ -61,6 +61,15 @@ impl CNode {
             if rc != IOX2_OK {
                 return Err(err(rc, "iox2_config_global_set_prefix".into()));
             }
+            let rp = CString::new(crate::rside::root_path()).unwrap();
+            let rc = iox2_config_global_set_root_path(&cfg, rp.as_ptr());
+            if rc != IOX2_OK {
+                return Err(err(rc, "iox2_config_global_set_root_path".into()));
+            }
+            // same values as rside::config
+            iox2_config_defaults_publish_subscribe_set_subscriber_expired_connection_buffer(&cfg, EXPIRED_CONNECTIONS);
+            iox2_config_defaults_request_response_set_client_expired_connection_buffer(&cfg, EXPIRED_CONNECTIONS);
+            iox2_config_defaults_request_response_set_server_expired_connection_buffer(&cfg, EXPIRED_CONNECTIONS);
             iox2_node_builder_set_config(&nb, &cfg);
             iox2_config_drop(cfg);
             let mut h: iox2_node_h = null_mut();
@@ -108,6 +117,9 @@ pub fn service_exists(s: SvcType, prefix: &str, name: &str, pattern: iox2_messag
         assert_eq!(rc, IOX2_OK);
         let p = CString::new(prefix).unwrap();
         let rc = iox2_config_global_set_prefix(&cfg, p.as_ptr());
+        assert_eq!(rc, IOX2_OK);
+        let rp = CString::new(crate::rside::root_path()).unwrap();
+        let rc = iox2_config_global_set_root_path(&cfg, rp.as_ptr());
         assert_eq!(rc, IOX2_OK);
         let mut sn: iox2_service_name_h = null_mut();
         let rc = iox2_service_name_new(null_mut(), name.as_ptr() as *const c_char, name.len(), &mut sn);
@@ -753,7 +765,7 @@ unsafe fn open_req_res(node: &CNode, name: &str, c: &RrCfg) -> Result<iox2_port_
     iox2_service_builder_request_response_max_borrowed_responses_per_pending_response(&sb, c.max_borrowed_responses);
     iox2_service_builder_request_response_enable_safe_overflow_for_requests(&sb, true);
     iox2_service_builder_request_response_enable_safe_overflow_for_responses(&sb, true);
-    iox2_service_builder_request_response_enable_fire_and_forget_requests(&sb, true);
+    iox2_service_builder_request_response_enable_fire_and_forget_requests(&sb, c.fire_and_forget);
     let mut svc: iox2_port_factory_request_response_h = null_mut();
     let rc = iox2_service_builder_request_response_open_or_create(sb, null_mut(), &mut svc);
     if rc != IOX2_OK {
